@@ -6,8 +6,9 @@ use std::io::Cursor;
 
 fn read_real(bytes: &[u8]) -> Result<Result<Class, String>, PanicInfo> {
     guard(|| {
-        let mut cur = Cursor::new(bytes);
-        match duke::read_class(&mut cur) {
+        // every third input is delivered through a reader that returns short reads (legal for any `Read`)
+        let r = if common::rng::fnv(bytes) % 3 == 0 { duke::read_class(&mut common::io::ChunkedReader::new(bytes, common::rng::fnv(bytes), 1 + (bytes.len() % 9))) } else { duke::read_class(&mut Cursor::new(bytes)) };
+        match r {
             Ok(tree) => { let mut m = project::project(&tree); project::normalise(&mut m); Ok(m) }
             Err(e) => Err(format!("{e:#}")),
         }
